@@ -18,6 +18,10 @@ package drpcpool
 
 //@ axiom closedCh != nil
 
+// Set once by New, never assigned again (checked by a scan of every function of the package).
+//@ immutable Pool.opts
+//@   props C15
+
 //@ monitor Pool.mu
 //@   protects entries, order
 //@   invariant [cap]   self.opts.Capacity > 0 ==> self.order.count <= self.opts.Capacity
